@@ -26,12 +26,12 @@ RULE = (
     "composition judged; states = returned values compared with the closed form, transitions = calls of the real functions"
 )
 ASSUMPTIONS = [
-    "judged when the regularised covariance is well conditioned (cond <= 1e9); relative tolerance 1e-6",
+    "judged when cond(X^T X + alpha I) <= 1e13; relative tolerance max(1e-6, 1e3 * cond * eps)",
     "test feature vectors are non-zero in every component block (a zero block gives an infinite rigidity, which is not compared)",
     "rank difference judged when no singular value lies within a factor 1e3 of numpy's default rank tolerance",
 ]
 DEGRADED = set()
-ALPHAS = [1e-8, 1e-4, 1e-2, 1.0, 1e2, 1e4]
+ALPHAS = [1e-12, 1e-10, 1e-8, 1e-4, 1e-2, 1.0, 1e2, 1e4]
 
 
 def bounds(tier, seed):
@@ -114,10 +114,12 @@ def check(case):
     multi = 0
     for alpha in ALPHAS:
         ref, A = _closed_form(train, atoms, alpha)
-        if np.linalg.cond(A) > 1e9:
+        cnd = np.linalg.cond(A)
+        if cnd > 1e13:
             r.count("ill_conditioned_alpha_skipped")
             prev = None
             continue
+        rtol = max(1e-6, 1e3 * cnd * np.finfo(float).eps)  # 1/(x A^-1 x) is accurate to about cond * eps
         try:
             LPR, rank_diff = local_prediction_rigidity([t.copy() for t in train], [t.copy() for t in test], alpha)
         except Exception as e:
@@ -129,9 +131,9 @@ def check(case):
         r.states += flat.size
         if not np.all(np.isfinite(flat)) or flat.min() <= 0:
             return r.fail("lpr-not-strictly-positive", "%s" % flat.tolist())
-        if np.abs(flat / ref - 1).max() > 1e-6:
+        if np.abs(flat / ref - 1).max() > rtol:
             return r.fail("lpr-differs-from-closed-form", "alpha=%g: %s vs %s" % (alpha, flat.tolist(), ref.tolist()))
-        if prev is not None and (flat < prev * (1 - 1e-9)).any():
+        if prev is not None and (flat < prev * (1 - 10 * rtol)).any():
             return r.fail("lpr-decreases-with-alpha", "alpha=%g" % alpha)
         prev = flat
         # rank difference
@@ -146,10 +148,10 @@ def check(case):
             L2, _ = local_prediction_rigidity([t * c for t in train], [t * c for t in test], alpha * 1.0)
             r.transitions += 1
             f2 = np.concatenate([np.asarray(x, float).ravel() for x in L2])
-            if np.abs(f2 / flat - 1).max() > 1e-6:
+            if np.abs(f2 / flat - 1).max() > 10 * rtol:
                 return r.fail("lpr-not-scale-invariant", "alpha=%g, factor %g: max rel change %.3g" % (alpha, c, np.abs(f2 / flat - 1).max()))
         # component-wise variants: ALL compositions of d
-        if alpha not in (1e-4, 1.0, 1e2):
+        if alpha not in (1e-10, 1e-4, 1.0, 1e2):
             continue
         for comp in fam.compositions(d):
             try:
@@ -174,9 +176,9 @@ def check(case):
                     continue
                 if not np.all(np.isfinite(Lflat[:, ci])) or Lflat[:, ci].min() <= 0 or CPR[:, ci].min() <= 0:
                     return r.fail("cpr-not-strictly-positive", "comp %s component %d" % (comp, ci))
-                if np.abs(Lflat[:, ci] / refL - 1).max() > 1e-6:
+                if np.abs(Lflat[:, ci] / refL - 1).max() > rtol:
                     return r.fail("lcpr-differs-from-closed-form", "alpha=%g comp=%s component %d: %s vs %s" % (alpha, comp, ci, Lflat[:, ci].tolist(), refL.tolist()))
-                if np.abs(CPR[:, ci] / refC - 1).max() > 1e-6:
+                if np.abs(CPR[:, ci] / refC - 1).max() > rtol:
                     return r.fail("cpr-differs-from-closed-form", "alpha=%g comp=%s component %d: %s vs %s" % (alpha, comp, ci, CPR[:, ci].tolist(), refC.tolist()))
             if len(comp) == 1 and np.abs(Lflat[:, 0] / flat - 1).max() > 1e-9:
                 return r.fail("single-component-lcpr-differs-from-lpr", "alpha=%g" % alpha)
